@@ -411,6 +411,9 @@ Definition query_of_bytes (bs : list Z) : option (Z * name) :=
 Definition name_ok (n : name) : bool := bytes n && free_of SP n && utf8_valid n.
 Definition addr_ok (a : addr) : bool := (Z.of_nat (length a) =? 4) && bytes a.
 Definition records_ok (cfg : config) : bool := forallb (fun r => addr_ok (snd r)) (cfg_records cfg).
+(* every looked-up name of a trace is a name of the quantifier *)
+Definition names_okb (tr : list event) : bool :=
+  forallb (fun e => match e with EvL _ _ n => name_ok n | _ => true end) tr.
 (* the query for n fits the server's read *)
 Definition fits (cfg : config) (n : name) : bool :=
   match cfg_recv_cap cfg with
